@@ -125,6 +125,9 @@ let fresh : (int * string, int * BZ.t) Hashtbl.t = Hashtbl.create 16
    observations at most max_interval apart) since the last evaluation that found the member not alive
    (such an evaluation empties the window) *)
 let usable : (int * string, unit) Hashtbl.t = Hashtbl.create 16
+(* set by the marker HONEST: the next catch-up is fed what a peer actually holds about the member
+   (not arbitrary data), so the ledger-based monitors (C02, C03, C04) keep applying *)
+let next_catchup_honest = ref false
 (* C11: the same with "fresh" read as "strictly higher than every heartbeat this node has ever
    observed for the member while it knew or remembered it": highest heartbeat observed, instant of the
    last record-breaking observation, and whether two record-breaking observations at most
@@ -147,7 +150,7 @@ let n_checks = ref 0
 let reset_case () =
   Hashtbl.reset infos; Hashtbl.reset snaps; Hashtbl.reset ledgers; Hashtbl.reset owner_hb;
   Hashtbl.reset fresh;
-  Hashtbl.reset usable; Hashtbl.reset seen_max; Hashtbl.reset last_rb; Hashtbl.reset usable_strict; now := BZ.zero; Hashtbl.reset tainted; Hashtbl.reset tainted_nds; Hashtbl.reset removed_by_eval;
+  next_catchup_honest := false; Hashtbl.reset usable; Hashtbl.reset seen_max; Hashtbl.reset last_rb; Hashtbl.reset usable_strict; now := BZ.zero; Hashtbl.reset tainted; Hashtbl.reset tainted_nds; Hashtbl.reset removed_by_eval;
   weak_acceptance_seen := false; catchup_seen := false
 
 let flag (prop : string) (cls : string option) (what : string) =
@@ -478,6 +481,20 @@ let on_eval (idx : int) (obs : string) : unit =
              (fun (i, _) -> if nm_get i s.nodes = None then Hashtbl.replace removed_by_eval (idx, token_of_id i) ())
              b.nodes
        | None -> ());
+      (* C12: a member removed by this evaluation is remembered with the heartbeat its copy held at that
+         moment (whatever the memory said before); a member the node holds is not in the memory *)
+      (match before with
+       | Some b ->
+           List.iter
+             (fun (i, cb) ->
+               if nm_get i s.nodes = None then
+                 check "C12"
+                   (List.exists (fun (j, h) -> id_eqb i j && neq h cb.c_hb) s.gcn)
+                   ("member " ^ token_of_id i ^ " was removed by a liveness evaluation but is not remembered with the heartbeat known at removal"))
+             b.nodes
+       | None -> ());
+      check "C12" (List.for_all (fun (j, _) -> nm_get j s.nodes = None) s.gcn)
+        "the removed-member memory lists a member the node currently holds";
       (* C05 / C12: a liveness evaluation never touches the node's own copy, let alone removes it *)
       (match before with
        | Some b ->
@@ -582,9 +599,15 @@ let on_delta ?dg (idx : int) (mtu : int) (sched : id list) (obs : string) : unit
   end
 
 let on_catchup ?member ?supplied (idx : int) (obs : string) : unit =
-  catchup_seen := true;
+  let honest = !next_catchup_honest in
+  next_catchup_honest := false;
+  if not honest then catchup_seen := true;
   match parse_obs obs with
   | Some o ->
+      (if honest then
+         match Hashtbl.find_opt infos idx with
+         | Some info -> common_checks ~idx info (Hashtbl.find_opt snaps idx) o.snap ~is_local:false
+         | None -> ());
       (match member with
        | Some m when Hashtbl.mem removed_by_eval (idx, token_of_id m) ->
            check "C18" (nm_get m o.snap.nodes = None)
